@@ -202,18 +202,34 @@ func ruleC05e(c *Ctx) {
 	cyc := blocksOnCycles(neg)
 	isProduceElem := func(v ssa.Value) bool { return isElementOfField(strip(v), "routeProduces") }
 	n := 0
-	for _, r := range returnsOf(neg) {
-		if !cyc[r.Block()] && !dominatedByLoopOver(neg, r.Block(), ranked) {
-			continue
-		}
-		// inside the loop over the ranked ranges
+	inLoop := func(b *ssa.BasicBlock) bool { return cyc[b] || dominatedByLoopOver(neg, b, ranked) }
+	seenRet := map[string]bool{}
+	for _, vr := range virtualReturns(neg) {
+		r := vr
 		if b, ok := constBool(r.Results[1]); ok && !b {
 			continue
 		}
+		res0 := strip(refinePhi(r.Results[0], vr.Facts))
+		// a negotiated answer: returned from inside the loop over the ranked ranges, or (after results were collected
+		// in variables) looked up inside that loop
+		in := inLoop(vr.Ret.Block())
+		if ex, ok := res0.(*ssa.Extract); ok {
+			if call, ok := ex.Tuple.(*ssa.Call); ok && rankedLoopHolds(neg, call.Block(), ranked) {
+				in = true
+			}
+		}
+		if !in {
+			continue
+		}
+		key := p.ipos(vr.Ret) + "|" + res0.Name()
+		if seenRet[key] {
+			continue
+		}
+		seenRet[key] = true
 		n++
 		okSrc := false
 		why := "the returned writer does not come from a registry lookup"
-		if ex, ok := strip(r.Results[0]).(*ssa.Extract); ok {
+		if ex, ok := res0.(*ssa.Extract); ok {
 			// a helper that walks the route's Produces: all its successful returns must qualify
 			if call, ok := ex.Tuple.(*ssa.Call); ok && call.Call.StaticCallee() != nil && call.Call.StaticCallee().Name() != "accessorAt" && p.inModule(call.Call.StaticCallee()) {
 				h := call.Call.StaticCallee()
@@ -285,7 +301,7 @@ func ruleC05e(c *Ctx) {
 				}
 			}
 		}
-		c.check(okSrc, name, "a negotiated writer is for a media type the route produces", p.ipos(r), "accessorAt(<Produces entry>) or accessorAt(range) under range == <Produces entry>", why+": the response Content-Type can be one the route does not declare")
+		c.check(okSrc, name, "a negotiated writer is for a media type the route produces", p.ipos(vr.Ret), "accessorAt(<Produces entry>) or accessorAt(range) under range == <Produces entry>", why+": the response Content-Type can be one the route does not declare")
 	}
 	if n == 0 {
 		c.bad(name, "negotiation over the ranked Accept ranges", p.pos(neg.Pos()), "no successful return inside the loop over the ranked ranges")
@@ -310,6 +326,25 @@ func dominatedByLoopOver(fn *ssa.Function, b *ssa.BasicBlock, v ssa.Value) bool 
 			if ia, ok := ins.(*ssa.IndexAddr); ok && strip(ia.X) == strip(v) {
 				// b must be inside the same cycle
 				if reachableAfter(b, nil)[h] || returnsFrom(b) {
+					return true
+				}
+			}
+		}
+	}
+	return false
+}
+
+// rankedLoopHolds: b lies inside the loop that walks the elements of v (it is dominated by the loop's element access
+// and can reach it again).
+func rankedLoopHolds(fn *ssa.Function, b *ssa.BasicBlock, v ssa.Value) bool {
+	cyc := blocksOnCycles(fn)
+	for h := b; h != nil; h = h.Idom() {
+		if !cyc[h] {
+			continue
+		}
+		for _, ins := range h.Instrs {
+			if ia, ok := ins.(*ssa.IndexAddr); ok && strip(ia.X) == strip(v) {
+				if h == b || reachableAfter(b, nil)[h] {
 					return true
 				}
 			}
